@@ -55,30 +55,34 @@ def gen_cases(seed, n, feats, pk=False):
 MOCKS = [{"t1": 1, "t2": 100000, "t3": 50}, {"t1": 100000, "t2": 3, "t3": 100000}]
 
 
+def case_setup(c, eng, split_inserts=True):
+    """The statements that build a case's database: tables (key / width variants), rows, views, functions."""
+    pk = {t: "a" for t in G.TABLES} if (c.get("pk") and eng == "disk") else None
+    setup = G.setup_sql(c["db"], G.TABLES, pk=pk, coltypes=c.get("coltypes"))
+    if c.get("inserts"):
+        # explicit layout: the case says how its rows are split into INSERTs (chunks / row-sets)
+        setup = [s for s in setup if s.startswith("create")] + list(c["inserts"])
+    elif eng == "disk" and split_inserts:
+        # several row-sets per table: one INSERT per row pair
+        setup = [s for s in setup if s.startswith("create")]
+        for t, rows in c["db"].items():
+            for k in range(0, len(rows), 2):
+                part = rows[k:k + 2]
+                setup.append(f"insert into {t} values " + ", ".join(
+                    "(" + ", ".join(G.lit(v) for v in r) + ")" for r in part))
+    if c.get("views"):
+        creates = [s for s in setup if s.startswith("create")]
+        rest = [s for s in setup if not s.startswith("create")]
+        setup = creates + (c["views"] + rest if c.get("views_first") else rest + c["views"])
+    return G.prelude(c["sql"] + " ".join(c.get("views") or [])) + setup
+
+
 def to_run_cases(cases, engines=("mem", "disk"), mocks=True, split_inserts=True):
     """-> (harness cases, labels per harness case: list of (step index, label))"""
     runs, labels = [], []
     for i, c in enumerate(cases):
         for eng in engines:
-            pk = {t: "a" for t in G.TABLES} if (c["pk"] and eng == "disk") else None
-            steps = []
-            setup = G.setup_sql(c["db"], G.TABLES, pk=pk, coltypes=c.get("coltypes"))
-            if c.get("inserts"):
-                # explicit layout: the case says how its rows are split into INSERTs (chunks / row-sets)
-                setup = [s for s in setup if s.startswith("create")] + list(c["inserts"])
-            elif eng == "disk" and split_inserts:
-                # several row-sets per table: one INSERT per row pair
-                setup = [s for s in setup if s.startswith("create")]
-                for t, rows in c["db"].items():
-                    for k in range(0, len(rows), 2):
-                        part = rows[k:k + 2]
-                        setup.append(f"insert into {t} values " + ", ".join(
-                            "(" + ", ".join(G.lit(v) for v in r) + ")" for r in part))
-            if c.get("views"):
-                creates = [s for s in setup if s.startswith("create")]
-                rest = [s for s in setup if not s.startswith("create")]
-                setup = creates + (c["views"] + rest if c.get("views_first") else rest + c["views"])
-            steps += [{"sql": s} for s in setup]
+            steps = [{"sql": s} for s in case_setup(c, eng, split_inserts)]
             lab = []
             steps.append({"sql": c["sql"]}); lab.append((len(steps) - 1, f"{eng}.on"))
             steps.append({"sql": "pragma disable_optimizer"})
